@@ -469,7 +469,11 @@ func Drive(o *DriveOpts) int {
 			for i, c := range cands {
 				nViol++
 				if i >= 4 {
-					violLines = append(violLines, fmt.Sprintf("(not minimised) property=%s key=%s run=%d", o.Public, c.key, c.run))
+					m := strings.ReplaceAll(c.viol.Msg, "\n", " | ")
+					if len(m) > 260 {
+						m = m[:260]
+					}
+					violLines = append(violLines, fmt.Sprintf("(not minimised) property=%s key=%s run=%d: %s", o.Public, c.key, c.run, m))
 					continue
 				}
 				ev.execs = 0
